@@ -27,6 +27,7 @@ type Obligation struct {
 	Watches []string
 	Result  SolverResult
 	Cex     SolverResult
+	Watch   []watch
 	Trivial bool
 	Failed  bool   // generator-level failure (unsupported construct etc.)
 	Reason  string // for Failed
@@ -243,6 +244,7 @@ func (ex *Exec) uniqueName(name string) string {
 }
 
 func (ex *Exec) oblige(st *State, kind, label string, goal Term, tags []string, instr ssa.Instruction, clause string) *Obligation {
+	tags = ex.effectiveTags(kind, tags)
 	name := ex.uniqueName(fmt.Sprintf("%s/%s/%s", ex.name, kind, label))
 	o := &Obligation{Name: name, Fn: ex.name, Kind: kind, Tags: tags, Goal: goal.S, Pos: ex.posOf(instr), Expect: "unsat", Clause: clause}
 	if goal.S == "true" {
@@ -252,11 +254,50 @@ func (ex *Exec) oblige(st *State, kind, label string, goal Term, tags []string, 
 		return o
 	}
 	o.Script = ex.script(st, Not(goal))
+	o.Watch = append([]watch(nil), ex.watches...)
 	ex.obls = append(ex.obls, o)
 	return o
 }
 
+// effectiveTags: which properties an obligation counts for. Explicit clause
+// tags win; supporting obligations (invariants, asserts, splits, call-site
+// preconditions, safety) count for every property the function's ensures
+// clauses are tagged with, safety and termination additionally for C14,
+// frames for C13.
+func (ex *Exec) effectiveTags(kind string, tags []string) []string {
+	seen := map[string]bool{}
+	var out []string
+	add := func(ts ...string) {
+		for _, t := range ts {
+			if !seen[t] {
+				seen[t] = true
+				out = append(out, t)
+			}
+		}
+	}
+	add(tags...)
+	switch kind {
+	case "safety", "requires", "subset", "dep", "contract", "loop":
+		add("C14")
+		add(ex.fnTags()...)
+	case "variant":
+		add("C14")
+	case "inv-entry", "inv-preserved", "assert", "split-cover", "lemma", "panic":
+		if len(tags) == 0 {
+			add(ex.fnTags()...)
+		}
+	case "loop-frame", "call-inv":
+		add("C13")
+		add(ex.fnTags()...)
+	case "frame", "global-inv", "init-inv":
+		add("C13")
+	}
+	sort.Strings(out)
+	return out
+}
+
 func (ex *Exec) failObl(kind, label, reason string, tags []string, instr ssa.Instruction) {
+	tags = ex.effectiveTags(kind, tags)
 	name := ex.uniqueName(fmt.Sprintf("%s/%s/%s", ex.name, kind, label))
 	ex.obls = append(ex.obls, &Obligation{Name: name, Fn: ex.name, Kind: kind, Tags: tags, Failed: true, Reason: reason, Pos: ex.posOf(instr), Expect: "unsat"})
 }
@@ -510,9 +551,13 @@ func (ex *Exec) assumeHeapBasics(st *State) {
 	w := T(SStr, "w")
 	ex.axioms = append(ex.axioms, Forall([]Term{w}, Not(Select(Select(st.heap["MDom"], IntLit(0)), w)), Select(Select(st.heap["MDom"], IntLit(0)), w)).S)
 	i := T(SInt, "i")
-	for l := range ex.p.Lang.Names {
+	for l, ln := range ex.p.Lang.Names {
+		n := int64(2048)
+		if wl := ex.p.loadWordLists()[ln]; wl != nil && wl.Bad == "" {
+			n = int64(len(wl.Words))
+		}
 		cell := Select(Select(st.heap["SMem"], IntLit(int64(l+1))), i)
-		body := Implies(And(Le(IntLit(0), i), Lt(i, IntLit(2048))), Eq(cell, App(SStr, "f_lst", IntLit(int64(l)), i)))
+		body := Implies(And(Le(IntLit(0), i), Lt(i, IntLit(n))), Eq(cell, App(SStr, "f_lst", IntLit(int64(l)), i)))
 		ex.axioms = append(ex.axioms, Forall([]Term{i}, body, cell).S)
 	}
 	// heap-resident facts established by the package initialiser (values of
@@ -556,6 +601,16 @@ func (ex *Exec) run() {
 		}
 		for _, r := range ex.fc.Requires {
 			st.assume(ex.specBool(st, r.Expr, &specCtx{mode: "entry"}))
+		}
+		for _, wd := range ex.fc.Watches {
+			if wd.Count == 0 {
+				ex.watch(wd.Name, ex.specTerm(st, wd.Expr, &specCtx{mode: "entry"}))
+				continue
+			}
+			for j := 0; j < wd.Count; j++ {
+				ctx := (&specCtx{mode: "entry"}).withBound("j", IntLit(int64(j)))
+				ex.watch(fmt.Sprintf("%s.%d", wd.Name, j), ex.specTerm(st, wd.Expr, ctx))
+			}
 		}
 	}
 	// cover: requires + invariants are satisfiable (vacuity guard)
@@ -1039,16 +1094,20 @@ func (ex *Exec) applySplits(st *State, anchor string, instr ssa.Instruction) []*
 	if ex.fc == nil {
 		return states
 	}
+	mode := "loop"
+	if anchor == "entry" {
+		mode = "entry"
+	}
+	if ex.fn == nil {
+		mode = "lemma"
+	}
 	for si, sd := range ex.fc.Splits {
 		if sd.Anchor != anchor {
 			continue
 		}
 		var out []*State
 		for _, s := range states {
-			ctx := &specCtx{mode: "loop"}
-			if anchor == "entry" {
-				ctx.mode = "entry"
-			}
+			ctx := &specCtx{mode: mode}
 			x := ex.spec(s, sd.Expr, ctx).T
 			var alts []Term
 			for _, v := range sd.Values {
@@ -1065,6 +1124,17 @@ func (ex *Exec) applySplits(st *State, anchor string, instr ssa.Instruction) []*
 			}
 		}
 		states = out
+	}
+	// proof cuts: proved, then assumed, in order
+	for _, ad := range ex.fc.Asserts {
+		if ad.Anchor != anchor {
+			continue
+		}
+		for _, s := range states {
+			g := ex.specBool(s, ad.Clause.Expr, &specCtx{mode: mode})
+			ex.oblige(s, "assert", ad.Clause.Label+"@"+strings.ReplaceAll(anchor, " ", ""), g, ad.Clause.Tags, instr, ad.Clause.Src)
+			s.assume(g)
+		}
 	}
 	return states
 }
